@@ -25,6 +25,7 @@ for ID in sys.argv[2:]:
             if m:
                 cmds.append(c[m.start():].strip())
         cmds = [re.sub(r"git( -C \S+)? apply \S+ && ", "", c) for c in cmds]
+        cmds = [re.sub(r"\s+\((?!.*\)\s*\S).*\)\s*$", "", c) for c in cmds]
         if not cmds:
             # a new integration-test file: run exactly that test binary
             m = re.search(r"^\+\+\+ b/(\w+)/tests/(\w+)\.rs", open(d + "/demo.diff").read(), flags=re.M)
